@@ -11,9 +11,9 @@ the number of 'could not achieve the required precision' warnings with the model
 rays that ran out of iterations.
 
 Oracle (on the implementation's own output, independent of the model): searched points lie on
-their rays (angle theta, distance >= 0); if no precision warning was emitted, the strict
-AND/OR exceedance fraction recomputed from the sample is within allowed_error*alpha of alpha at
-every searched point; AND ends with (0,0); OR ends with (0,y_last),(0,0),(x_first,0); OR kept
+their rays (angle theta, distance >= 0); the strict AND/OR exceedance fraction recomputed from the
+sample is within allowed_error*alpha of alpha at every searched point, except for at most as many
+points as precision warnings were emitted (one warning per ray; none => all precise); AND ends with (0,0); OR ends with (0,y_last),(0,0),(x_first,0); OR kept
 points are inside the 1.1*max box, follow the thetas in order (a sublist: dropped, not altered),
 and a theta may only be missing if a point of that ray outside the box can be precise.
 """
@@ -63,6 +63,8 @@ def make_sample(case):
         return model_sample(case["model"], case["pseed"], case["n"], case["sseed"])
     if case["src"] == "cloud":
         return cloud(case["cloud"], case["n"], case["sseed"], nonneg=True)
+    if case["src"] == "raytie2":
+        return raytie2_sample(case)
     # "raytie": sample values placed exactly on the coordinates the search evaluates on one ray
     r = np.random.default_rng(70000 + case["sseed"])
     xm, ym = np.float64(case["marg"][0]), np.float64(case["marg"][1])
@@ -70,7 +72,7 @@ def make_sample(case):
     th = thetas_of(case)
     theta = th[case["theta_idx"] % len(th)]
     c, s = np.cos(theta / 180 * np.pi), np.sin(theta / 180 * np.pi)
-    rds = reachable_rel_dists(7)
+    rds = reachable_rel_dists(6)
     vx = np.array([c * (rd * maxd) for rd in rds])
     vy = np.array([s * (rd * maxd) for rd in rds])
     n = case["n"]
@@ -79,6 +81,30 @@ def make_sample(case):
     k2 = np.where(r.uniform(size=n) < 0.5, k, r.integers(0, len(rds), n))
     y = np.where(r.uniform(size=n) < 0.6, vy[k2], r.weibull(1.5, n) * float(ym) * 0.6)
     return np.ascontiguousarray(np.column_stack([x, y]), dtype=float)
+
+
+def raytie2_sample(case):
+    """one coordinate ('focus') takes only the <= 15 values that the search evaluates on one ray
+    within its first 4 iterations (heavy ties exactly at the compared coordinates), the other
+    coordinate is neutral (AND: always exceeded, OR: never exceeded), so that the exceedance
+    along that ray is a coarse step function whose steps sit exactly on the evaluated points"""
+    r = np.random.default_rng(90000 + case["sseed"])
+    xm, ym = np.float64(case["marg"][0]), np.float64(case["marg"][1])
+    maxd = np.sqrt(xm**2 + ym**2)
+    th = thetas_of(case)
+    theta = th[case["theta_idx"] % len(th)]
+    c, s = np.cos(theta / 180 * np.pi), np.sin(theta / 180 * np.pi)
+    u = c if case["focus"] == "x" else s
+    lat = np.array([u * (rd * maxd) for rd in reachable_rel_dists(4)])
+    w = r.dirichlet(np.full(len(lat), 3.0))
+    n = case["n"]
+    vals = r.choice(lat, size=n, p=w)
+    big = 1e6 * float(maxd)
+    other = np.full(n, big if case["kind"] == "and" else 0.0)
+    pts = np.column_stack([vals, other]) if case["focus"] == "x" else np.column_stack([other, vals])
+    if case["kind"] == "or":
+        pts[0] = [big, big]  # keeps 1.1*max away from the searched points
+    return np.ascontiguousarray(pts, dtype=float)
 
 
 def make_model(case, sample):
@@ -277,13 +303,19 @@ def oracle(case, impl):
         if not on_ray(p, theta):
             bad.append(("point_on_ray", f"point {i} {p.tolist()} not on the ray of theta {theta}"))
             break
-    if impl["nwarn"] == 0:
-        for i, (p, theta) in enumerate(searched):
-            ok, pe = precise(p)
-            if not ok:
-                bad.append(("exceedance_within_allowed_error",
-                            f"no warning, but point {i} {p.tolist()} (theta {theta}): {kind.upper()} exceedance {pe!r}, alpha {alpha}, |pe-alpha|/alpha = {abs(pe - alpha) / alpha:.4g} > {err}"))
-                break
+    # the warning is emitted once per ray that ran out of iterations (captured with
+    # simplefilter("always")): without any warning every searched point must be precise, and
+    # in general there cannot be more imprecise points than warnings
+    imprecise = []
+    for i, (p, theta) in enumerate(searched):
+        ok, pe = precise(p)
+        if not ok:
+            imprecise.append((i, p, theta, pe))
+    if len(imprecise) > impl["nwarn"]:
+        i, p, theta, pe = imprecise[0]
+        bad.append(("exceedance_within_allowed_error",
+                    f"{impl['nwarn']} precision warning(s) but {len(imprecise)} imprecise point(s); point {i} {p.tolist()} (theta {theta}): "
+                    f"{kind.upper()} exceedance {pe!r}, alpha {alpha}, |pe-alpha|/alpha = {abs(pe - alpha) / alpha:.4g} > {err}"))
     return bad
 
 
@@ -343,6 +375,12 @@ def corpus_cases():
     yield dict(base, kind="and", src="raytie", marg=[3.0, 4.0], theta_idx=0, n=2000, sseed=4, alpha=0.2, deg=15, err=0.2)
     yield dict(base, kind="and", src="raytie", marg=[3.0, 4.0], theta_idx=2, n=2000, sseed=5, alpha=0.2, deg=15, err=0.2)
     yield dict(base, kind="or", src="raytie", marg=[3.0, 4.0], theta_idx=1, n=2000, sseed=6, alpha=0.2, deg=15, err=0.2, lo=0, hi=90)
+    for kind, focus, ti in (("and", "x", 0), ("and", "y", 2), ("or", "x", 1), ("or", "y", 3)):
+        c = dict(base, kind=kind, src="raytie2", focus=focus, marg=[3.0, 4.0], theta_idx=ti, n=3000, sseed=8 + ti,
+                 alpha=0.2, deg=15, err=0.2)
+        if kind == "or":
+            c.update(lo=0, hi=90)
+        yield c
     # allowed_error >= 1 is outside the quantifier: the loop body never runs, current_vector is unbound
     yield dict(base, kind="and", src="cloud", cloud="ties", n=200, sseed=7, alpha=0.1, deg=30, err=1.0, outside_quantifier=True)
 
@@ -364,11 +402,17 @@ def random_cases(rng, count, nmax, budget):
             case.update(src="model", model=str(rng.choice(MODEL_NAMES)), pseed=int(rng.integers(0, 6)))
         elif u < 0.8:
             case.update(src="cloud", cloud=str(rng.choice(NONNEG_CLOUDS)))
+        elif u < 0.88:
+            case.update(src="raytie2", focus=str(rng.choice(["x", "y"])),
+                        marg=[float(rng.choice([3.0, 1.0, 2.5, 8.0])), float(rng.choice([4.0, 1.0, 6.0]))],
+                        theta_idx=int(rng.integers(1, 90)))
+            case["alpha"] = float(rng.choice([0.2, 0.1]))
+            case["err"] = float(rng.choice([0.2, 0.1]))
         else:
             case.update(src="raytie", marg=[float(rng.choice([3.0, 1.0, 2.5, 8.0])), float(rng.choice([4.0, 1.0, 6.0]))],
                         theta_idx=int(rng.integers(0, 90)))
             case["alpha"] = float(rng.choice([0.2, 0.1, 0.05]))
-            case["err"] = float(rng.choice([0.2, 0.1]))
+            case["err"] = float(rng.choice([0.2, 0.1, 0.05]))
         # keep the work per contour bounded: rays * n * iterations
         rays = len(thetas_of(dict(case, n=n)))
         its = 100 if case["alpha"] * n * case["err"] < 1.5 else 20
@@ -434,10 +478,10 @@ def main(ck):
     thorough = ck.tier == "thorough"
     ck.rule = (
         "corpus (published Hs-Tz model n=1e4; too-small sample -> every ray warns; clouds with exact zeros at theta=0; "
-        "'raytie' clouds whose values sit exactly on the coordinates the search evaluates; allowed_error=1 outside the quantifier), "
+        "'raytie'/'raytie2' clouds whose values sit exactly on the coordinates the search evaluates (heavy ties at the compared values); allowed_error=1 outside the quantifier), "
         "then random AND/OR contours alternating: alpha in [1e-3,0.2], allowed_error in [0.005,0.2], deg_step in [1,30] (integers "
         "and 1.5/2.5/7.5), OR lowest/highest_theta in 7 combinations, samples from 4 real 2-D virocon model structures with perturbed "
-        "parameters (marginal_icdf captured), non-negative arbitrary clouds (ties, Pareto/Cauchy tails, lattices, zeros) and raytie clouds, "
+        "parameters (marginal_icdf captured), non-negative arbitrary clouds (ties, Pareto/Cauchy tails, lattices, zeros) and raytie/raytie2 clouds, "
         "n from 200 to " + ("200000" if thorough else "20000")
         + "; non-trivial = inside the quantifier, no exception, n >= 200, >= 3 rays; distinct by SHA1 of the case"
     )
